@@ -242,9 +242,86 @@ class Body:
                 res.append(x)
         return res
 
+    def _jump_threads(self):
+        """Boolean temporaries (lowering of matches!, &&, ||): a block that stores a constant into local L and
+        then reaches, through empty gotos, a block that only switches on L (or on !L computed in that block) is
+        given the resolved switch target as its successor.  This removes the infeasible paths a path-insensitive
+        reading of `let m = matches!(..); if !m {..}` would report."""
+        threads = {}
+        for s in range(self.n):
+            bl = self.blocks[s]
+            t = bl["t"]
+            if t["k"] != "switch":
+                continue
+            d = t["d"]
+            p = d.get("c") or d.get("m")
+            if p is None or len(p) != 1:
+                continue
+            loc = p[0]
+            neg = False
+            stm = bl["s"]
+            if len(stm) > 1:
+                continue
+            if len(stm) == 1:
+                st = stm[0]
+                rv = st["rv"]
+                if st["lhs"] == [loc] and rv["r"] == "un" and rv["op"] == "Not":
+                    q = rv["o"].get("c") or rv["o"].get("m")
+                    if q is None or len(q) != 1:
+                        continue
+                    loc = q[0]
+                    neg = True
+                else:
+                    continue
+            if loc in self.names:
+                continue
+            defs = self.defs().get(loc, ())
+            if not defs or any(si is None for (_, si, _, _) in defs):
+                continue
+            consts = {}
+            good = True
+            for (bi, si, rv, lhs) in defs:
+                if lhs != [loc] or rv["r"] != "use" or "k" not in rv["o"] or rv["o"]["k"].get("v") not in (True, False):
+                    good = False
+                    break
+                if si != len(self.blocks[bi]["s"]) - 1:
+                    good = False
+                    break
+                consts[bi] = rv["o"]["k"]["v"]
+            if not good:
+                continue
+            for bi, val in consts.items():
+                # follow empty gotos from bi to s
+                x = bi
+                okc = False
+                for _ in range(6):
+                    tt = self.blocks[x]["t"]
+                    if tt["k"] != "goto":
+                        break
+                    nx = tt["to"]
+                    if nx == s:
+                        okc = True
+                        break
+                    if self.blocks[nx]["s"]:
+                        break
+                    x = nx
+                if not okc:
+                    continue
+                v = (not val) if neg else val
+                target = None
+                for tv, tg in t["targets"]:
+                    if tv == (1 if v else 0):
+                        target = tg
+                if target is None:
+                    target = t["otherwise"]
+                threads[bi] = target
+        return threads
+
     def succs(self):
         if self._succ is None:
             self._succ = [self.succ(i) for i in range(self.n)]
+            for bi, tg in self._jump_threads().items():
+                self._succ[bi] = [tg]
             self._pred = [[] for _ in range(self.n)]
             for i, ss in enumerate(self._succ):
                 for s in ss:
